@@ -36,8 +36,22 @@ type concEv struct {
 type concTracer struct {
 	mu   sync.Mutex
 	txns map[*fstxn.FsTxn][]string
+	proc map[*fstxn.FsTxn]string
 	ord  []*fstxn.FsTxn
 }
+
+// goid returns the id of the calling goroutine (the hooks run on the goroutine that serves the RPC)
+func goid() string {
+	var buf [64]byte
+	n := runtime.Stack(buf[:], false)
+	f := strings.Fields(string(buf[:n]))
+	if len(f) >= 2 {
+		return f[1]
+	}
+	return "?"
+}
+
+var curProc sync.Map // goroutine id -> procedure being served
 
 func runConc(seed int64, nclients, nops int, size uint64, out string, shape string) int {
 	f, _ := os.Create(out)
@@ -66,7 +80,7 @@ func runConc(seed int64, nclients, nops int, size uint64, out string, shape stri
 	fmt.Fprintf(w, "M conc-begin %d\n", nclients)
 	w.Flush()
 	// --- tracing of transactions (by transaction, not by RPC) and schedule noise
-	ct := &concTracer{txns: map[*fstxn.FsTxn][]string{}}
+	ct := &concTracer{txns: map[*fstxn.FsTxn][]string{}, proc: map[*fstxn.FsTxn]string{}}
 	var noise int64 = seed
 	st := r.srv.VerifState()
 	fstxn.VerifHook = func(kind int, op *fstxn.FsTxn, arg uint64) {
@@ -76,6 +90,12 @@ func runConc(seed int64, nclients, nops int, size uint64, out string, shape stri
 		ct.mu.Lock()
 		if _, ok := ct.txns[op]; !ok {
 			ct.ord = append(ct.ord, op)
+			ct.txns[op] = nil
+			if p, ok := curProc.Load(goid()); ok {
+				ct.proc[op] = p.(string)
+			} else {
+				ct.proc[op] = "background"
+			}
 		}
 		tag := map[int]string{1: "a", 2: "r", 3: "c", 4: "d", 5: "x", 6: "f", 7: "g", 8: "n"}[kind]
 		if tag != "" {
@@ -181,6 +201,9 @@ func runConc(seed int64, nclients, nops int, size uint64, out string, shape stri
 							done <- Reply{Kind: "panic", Data: []byte(fmt.Sprint(e))}
 						}
 					}()
+					g := goid()
+					curProc.Store(g, o.Proc)
+					defer curProc.Delete(g)
 					done <- Exec(r.srv, o, h, h2)
 				}()
 				select {
@@ -217,7 +240,7 @@ func runConc(seed int64, nclients, nops int, size uint64, out string, shape stri
 	}
 	ct.mu.Lock()
 	for _, op := range ct.ord {
-		fmt.Fprintf(w, "LT %s\n", strings.Join(ct.txns[op], " "))
+		fmt.Fprintf(w, "LT %s %s\n", ct.proc[op], strings.Join(ct.txns[op], " "))
 	}
 	ct.mu.Unlock()
 	if atomic.LoadInt32(&hung) == 1 {
